@@ -549,6 +549,9 @@ type c18sOp struct {
 	B     int64  `json:"b"`
 	Crash int    `json:"crash"` // -1 none, k, -2 random
 	Audit string `json:"audit"` // "", "none", "sample", "silent"
+	// audit only the prefixes AuditFrom..AuditTo (0 = no bound)
+	AuditFrom int `json:"audit_from"`
+	AuditTo   int `json:"audit_to"`
 }
 
 type c18sReplay struct {
@@ -738,6 +741,9 @@ func (rr *c18sRunner) run(ch *c18sChain, label string, incremental bool, sampleE
 					!(k%sampleEvery == 0 || k <= 4 || k >= len(entries)-3 || k == crashAt || (k%3000 >= 2996 || k%3000 <= 4)) {
 					continue
 				}
+				if (op.AuditFrom > 0 && k < op.AuditFrom) || (op.AuditTo > 0 && k > op.AuditTo) {
+					continue
+				}
 				var ranges []c18sRange
 				if incremental {
 					ranges = aud.audit(img, dirty)
@@ -851,6 +857,16 @@ func TestVerifC18State(t *testing.T) {
 		mode := "sample"
 		if every == 1 {
 			mode = ""
+		}
+		if !quick {
+			// every prefix of the big prune, audited by several runs (parallel trace validation)
+			total := int(n-4) * 3
+			for from := 1; from <= total; from += 1600 {
+				o := c18sBuild(ch, n, "silent")
+				o = append(o, c18sOp{Op: "Load"}, c18sOp{Op: "PruneStates", A: 1, B: n - 3, Crash: -1, AuditFrom: from, AuditTo: from + 1599})
+				rr.run(ch, "long-slice", true, 1, o)
+			}
+			mode, every = "sample", 200
 		}
 		ops := c18sBuild(ch, n, "silent")
 		ops = append(ops, c18sOp{Op: "Load"},
